@@ -176,8 +176,11 @@ def extra(res, findings, tier, rng, harness, driver):
         # LLVM 14's parameter-list parser does not count a NAMELESS FIRST parameter (`define void @f(i32, i32 %0)` is accepted and its second
         # parameter is %1; `(i32, i32 %1)` is rejected; `(i32 %a, i32, i32 %1)` is fine): llir numbers positionally, like LLVM everywhere else.
         ps = [t for t in shape.split() if t.startswith("P:")]
-        # (a first parameter written with the empty quoted name, `i32 %""`, is nameless for LLVM in the same way)
-        return bool(ps) and ps[0] in ("P:i", "P:q") and any(t.startswith("P:e") for t in ps[1:])
+        # LLVM 14 goes further for that spelling: a parameter written `%""` is not counted at ANY position (`(i32 %0, i32 %"", i32 %1)` is accepted,
+        # `(i32 %0, i32 %"", i32 %2)` rejected) although it takes a number like every unnamed value afterwards — the same inconsistency of the parameter-list parser
+        if any(t == "P:q" and any(u.startswith("P:e") for u in ps[k + 1:]) for k, t in enumerate(ps)):
+            return True
+        return bool(ps) and ps[0] == "P:i" and any(t.startswith("P:e") for t in ps[1:])
     def work(i):
         p = texts[i].split()
         if len(p) != 2:
